@@ -4,7 +4,10 @@
     accepts exactly the valid shapes and honours one of the fitting readings; deviations flatpair / skiplast / onemode.
 (G) the cases of the reduced generator model (dump) are run on the REAL Multitask with scripted optimizers / tasks of
     distinct classes logging (algorithm, task, mode, workers) from the worker processes; export into a scratch directory.
-(V) TraceMulti.tla judges rejection/acceptance, every pair x n_trials, modes, workers, table shapes, export layout.
+(V) TraceMulti.tla judges rejection/acceptance, every pair x n_trials, modes, workers, table shapes, export layout, and -
+    `TablesRight` - that every cell of every table, and of every exported file read back from disk (csv / json / pickle),
+    holds the result of exactly its (algorithm, task, trial): algorithms are recognisable by their population size, tasks
+    by the cost they produce.
 """
 from __future__ import annotations
 
@@ -28,18 +31,67 @@ RULE = ("cases = states of Multitask.tla's generator model (n, m in 1..3, every 
 MODE = {1: "serial", 2: "thread", 3: "process", 9: "warp"}
 
 
+def _cell(c, tn) -> list:
+    """<<id_trial, task, algorithm>> of the result stored in one table cell (0 where it cannot be recognised)"""
+    try:
+        if isinstance(c, str):                       # a csv cell: the repr of the dictionary
+            import re
+            k = int(re.search(r"'id_trial': (\d+)", c).group(1))
+            name = re.search(r"'problem_name': '(\w+)'", c).group(1)
+            cost = float(re.search(r"best_solution=Agent\(position=\[[^\]]*\], cost=([-+.\de]+)", c).group(1))
+            pop = c.split("Population(agents=[")[1].split("])")[0].count("Agent(")
+        else:
+            k, name = int(c["id_trial"]), str(c["problem_name"])
+            sol = c["solution"]
+            if isinstance(sol, dict):                # read back from json
+                cost = float(sol["best_solution"]["cost"])
+                pop = len(sol["evolution"][0]["agents"])
+            else:
+                cost = float(sol.best_solution.cost)
+                pop = len(sol.evolution[0].agents)
+        t = tn.index(name) + 1 if name in tn else 0
+        return [k, t if abs(cost - 10 * t) < 1e-9 else 0, pop - 2]
+    except Exception:
+        return [0, 0, 0]
+
+
+def _read_back(folder, fmt, colidx, tn) -> list:
+    """the table found in the single exported file of one algorithm, projected like `cells`"""
+    try:
+        import pandas as pd
+        fs = [f for f in os.listdir(folder) if os.path.isfile(os.path.join(folder, f))]
+        if len(fs) != 1:
+            return []
+        p = os.path.join(folder, fs[0])
+        if fmt == "csv":
+            df = pd.read_csv(p)
+            cols = {c: [df.iloc[k][c] for k in range(df.shape[0])] for c in df.columns}
+        elif fmt == "json":
+            raw = json.load(open(p))
+            cols = {c: [v[k] for k in sorted(v, key=int)] for c, v in raw.items()}
+        else:
+            df = pd.read_pickle(p)
+            cols = {c: [df.iloc[k][c] for k in range(df.shape[0])] for c in df.columns}
+        return [colidx.get(str(c), [0, 0]) + [[_cell(x, tn) for x in rows]] for c, rows in cols.items()]
+    except Exception:
+        return []
+
+
 def multi_case(args) -> dict:
     n, m, modes, nt, workers, fmt = args
     from .scripted import DriverOpt, DriverOptB, DriverOptC, DriverTask, DriverTaskB, DriverTaskC, DriverCfg
     from pyvolutionary import Multitask, ContinuousVariable
     d = tempfile.mkdtemp(prefix="multi-", dir=str(WORK / "tmp"))
     rec = {"n": n, "m": m, "modes": list(modes), "nt": nt, "workers": workers if workers is not None else 4, "fmt": fmt,
-           "ctor": "", "exec": "", "calls": [], "tables": [], "columns_ok": False, "export": "", "files": [], "stray": 0}
+           "ctor": "", "exec": "", "calls": [], "tables": [], "columns_ok": False, "export": "", "files": [], "stray": 0,
+           "cells": [], "content": []}
     try:
         ocls = [DriverOpt, DriverOptB, DriverOptC][:n]
         tcls = [DriverTask, DriverTaskB, DriverTaskC][:m]
-        algos = tuple(c(DriverCfg()) for c in ocls)
-        tasks = tuple(c(variables=[ContinuousVariable(name="x", lower_bound=0.0, upper_bound=1.0)], data={"dir": d, "table": {}}) for c in tcls)
+        # algorithm a is recognisable by its population size (a + 2), task t by the cost it produces (10 t)
+        algos = tuple(c(DriverCfg(population_size=a + 3)) for a, c in enumerate(ocls))
+        tasks = tuple(c(variables=[ContinuousVariable(name="x", lower_bound=0.0, upper_bound=1.0)],
+                        data={"dir": d, "table": {"{}": [10 * (t + 1)]}}) for t, c in enumerate(tcls))
         with contextlib.redirect_stdout(io.StringIO()), warnings.catch_warnings():
             warnings.simplefilter("ignore")
             try:
@@ -60,9 +112,13 @@ def multi_case(args) -> dict:
             rec["calls"] = [[on.index(c["opt"]) + 1, tn.index(c["task"]) + 1, inv.get(c["mode"], 0), c["workers"]] for c in calls]
             rec["tables"] = [[int(df.shape[0]), int(df.shape[1])] for df in mt._df2]
             rec["columns_ok"] = all(list(df.columns) == [f"{on[a]}_{t}" for t in tn] for a, df in enumerate(mt._df2)) and len(mt._df2) == n
+            colidx = {f"{on[a]}_{tn[t]}": [a + 1, t + 1] for a in range(n) for t in range(m)}
+            rec["cells"] = [[colidx.get(str(col), [0, 0]) + [[_cell(df.iloc[k][col], tn) for k in range(df.shape[0])]] for col in df.columns]
+                            for df in mt._df2]
             out = os.path.join(d, "out")
             try:
                 mt.export_results(fmt, save_path=out)
+                rec["content"] = [_read_back(os.path.join(out, a), fmt, colidx, tn) for a in on]
                 files = []
                 for a in on:
                     p = os.path.join(out, a)
@@ -80,8 +136,9 @@ def multi_case(args) -> dict:
 def main(chk: Check):
     thorough = chk.tier == "thorough"
     chk.model("Multitask_mc.cfg", tlc.run("Multitask.tla", "Multitask_mc.cfg", workers=16, timeout=1800),
-              note="LawAccept, LawPairs, LawModes for n, m in 1..3 and every tuple of 0..9 values over {serial, thread, process, not-a-mode}")
-    for cfg, law in (("Multitask_flatpair.cfg", "LawModes"), ("Multitask_skiplast.cfg", "LawPairs"), ("Multitask_onemode.cfg", "LawModes"), ("Multitask_taskfirst.cfg", "LawModes")):
+              note="LawAccept, LawPairs, LawModes, LawTables, LawExport for n, m in 1..3 and every tuple of 0..9 values over {serial, thread, process, not-a-mode}")
+    for cfg, law in (("Multitask_flatpair.cfg", "LawModes"), ("Multitask_skiplast.cfg", "LawPairs"), ("Multitask_onemode.cfg", "LawModes"), ("Multitask_taskfirst.cfg", "LawModes"),
+                     ("Multitask_accumulate.cfg", "LawTables"), ("Multitask_trialzero.cfg", "LawTables"), ("Multitask_misfile.cfg", "LawExport")):
         chk.model(cfg, tlc.run("Multitask.tla", cfg, workers=8, timeout=900), expect=law, note="named deviation")
     dump = WORK / f"multi-{os.getpid()}.dump"
     res = tlc.run("Multitask.tla", "Multitask_gen.cfg", workers=16, timeout=1800, extra=["-dump", str(dump)])
@@ -146,6 +203,12 @@ def main(chk: Check):
         elif r["modes"] and len(set(r["modes"])) > 1 and sum(1 for w in want.values() if w == "C20.mode") < 3:
             c["calls"] = [[a, t, (2 if md == 1 else 1), w] for a, t, md, w in c["calls"]]
             cl = "C20.mode"
+        elif r["n"] > 1 and r["content"] and sum(1 for w in want.values() if w == "C20.content") < 2:
+            c["content"] = c["content"][::-1]                 # every folder holds another algorithm's table
+            cl = "C20.content"
+        elif r["nt"] > 1 and sum(1 for w in want.values() if w == "C20.cells") < 2:
+            c["cells"][0][0][2] = c["cells"][0][0][2][::-1]   # the trials of one column in the opposite order
+            cl = "C20.cells"
         elif r["n"] > 1 and sum(1 for w in want.values() if w == "C20.export") < 2:
             c["files"][-1] = 0; c["stray"] = 1
             cl = "C20.export"
